@@ -372,8 +372,22 @@ func concRun(ctx *hx.Ctx, cfg concCfg, seed uint64) {
 	onErrCount := int32(0)
 	var lastExecEnd int64 = tick()
 
-	ap := gortsplib.VerifNewAsyncProcessor(cfg.cap, func(_ context.Context, _ error) {
+	// OnError behaves like the callbacks of createWriter (server_session.go, client.go): it reports the error unless the
+	// processor's own context ends first (Close), and only then returns
+	var onErrRunning, closeDuringOnError int32
+	ap := gortsplib.VerifNewAsyncProcessor(cfg.cap, func(pctx context.Context, _ error) {
+		atomic.StoreInt32(&onErrRunning, 1)
 		atomic.AddInt32(&onErrCount, 1)
+		if seed%2 == 0 {
+			select {
+			case <-pctx.Done():
+			case <-time.After(200 * time.Millisecond):
+			}
+			for t := 0; t < 50; t++ {
+				runtime.Gosched()
+			}
+		}
+		atomic.StoreInt32(&onErrRunning, 0)
 	})
 	execIdx := int32(-1)
 	mkcb := func(x uint64) func() error {
@@ -487,6 +501,9 @@ func concRun(ctx *hx.Ctx, cfg concCfg, seed uint64) {
 	closer := func() {
 		closeCall = tick()
 		ap.Close()
+		if atomic.LoadInt32(&onErrRunning) == 1 {
+			atomic.StoreInt32(&closeDuringOnError, 1)
+		}
 		closeRet = tick()
 		atomic.StoreInt32(&closeReturned, 1)
 		close(closeDone)
@@ -595,6 +612,9 @@ func concRun(ctx *hx.Ctx, cfg concCfg, seed uint64) {
 	wantErr := int32(0)
 	if cfg.errAt >= 0 && len(executed) > cfg.errAt {
 		wantErr = 1
+	}
+	if closeDuringOnError == 1 {
+		ctx.Failf(-1, "conc-close-returned-during-onerror", desc, "Close returned while the consumer was still inside OnError (the consumer is not joined)")
 	}
 	if onErrCount != wantErr {
 		ctx.Failf(-1, "conc-onerror-count", desc, "OnError called %d times, want %d", onErrCount, wantErr)
